@@ -569,6 +569,24 @@ let monitors id (label : sx) (pre : istate) (post : istate) (dl : (n * n * n * r
                (String.concat "," (List.map (fun (p, v) -> p ^ "=" ^ v) dev)) (String.concat "," (List.map (fun (p, v) -> p ^ "=" ^ v) app)))
          end
        | _ -> ()) (List.sort_uniq compare (List.map (fun (t, _, _, _, _) -> t) dl)));
+  (* C02: the re-push of the configuration controller sends applied values only - a change that is committed but whose
+     proposal has not been applied yet (an earlier transaction of the target may still be applying) must not reach the
+     device this way: every leaf the device gains in a configuration-controller step is a live applied value *)
+  (match lst label with
+   | A "rec" :: A "cfg" :: _ when dl <> [] ->
+     List.iter (fun t ->
+       match find_assoc (int_of_n t) pcfg, find_assoc (int_of_n t) qcfg with
+       | Some c1, Some c0 ->
+         let dv w = match List.assoc_opt t (w_devs w) with
+           | Some d -> List.map (fun (p, v) -> (str_of p, str_of v)) d.d_state | None -> [] in
+         let app c = List.map (fun (p, v) -> (str_of p, str_of v)) (live (overlay c.c_ainline c.c_avalues)) in
+         let d0 = dv prew and a0 = app c0 and a1 = app c1 in
+         List.iter (fun (p, v) ->
+           if not (List.mem (p, v) d0) && not (List.mem (p, v) a0) && not (List.mem (p, v) a1) then
+             specviol id "c02_repush_sends_unapplied_change" (Printf.sprintf "target %s: the re-push gave the device %s=%s, which is not an applied value (applied index %d, committed index %d)"
+               (sn t) p v (int_of_n c0.c_applied) (int_of_n c0.c_committed))) (dv postw)
+       | _ -> ()) (List.sort_uniq compare (List.map (fun (t, _, _, _, _) -> t) dl))
+   | _ -> ());
   (* C11: a refused request leaves the device as it was *)
   List.iter (fun (t, _, _, _, code) ->
     if code <> COk then begin
@@ -955,7 +973,7 @@ let props_of_step (label : sx) (pre : istate) (crashed : bool) : string =
     (* C01/C03: the committed values change only by a commit - every other controller's writes are theirs to watch too *)
     | A "rec" :: A "master" :: _ -> [ "C01"; "C03"; "C10" ]
     | A "rec" :: A "conn" :: _ -> [ "C10" ]
-    | A "rec" :: A "cfg" :: _ -> [ "C01"; "C03"; "C04"; "C10"; "C11" ]  (* C11: a pending change is applied once the target is synchronised again *)
+    | A "rec" :: A "cfg" :: _ -> [ "C01"; "C02"; "C03"; "C04"; "C10"; "C11" ]  (* C11: a pending change is applied once the target is synchronised again *)
     | [ A "rec"; A "prop"; t; i; _; _ ] ->
       (match List.assoc_opt (inum t, inum i) (props_of pre.w) with
        | Some p when p.p_apply <> None -> [ "C02"; "C04"; "C10"; "C11" ]
